@@ -67,7 +67,9 @@ def _relocate(rng, data):
                 newname[old] = old                                     # read by fixed name
             else:
                 sub = rng.choice(SUB_DIRS)
-                base = rng.choice(['p', 'item', 'ξ', ty]) + str(rng.randint(0, 99)) + '.xml'
+                # also names that merely BEGIN with the name of the directory they are stored in (word/wordmark1.xml)
+                dn = posixpath.basename(nd)
+                base = rng.choice(['p', 'item', 'ξ', ty, dn + 'mark' if dn and not sub else ty]) + str(rng.randint(0, 99)) + '.xml'
                 newname[old] = fresh(posixpath.normpath(posixpath.join(nd, sub, base)))
             place(old, depth + 1)
 
